@@ -831,4 +831,33 @@ example : analyticalLorentzian [0, 1, 2] [1, 1 / 2, 1 / 5] = (1, 1) :=
     (.cons ⟨by norm_num, by norm_num⟩ (.cons ⟨by norm_num, by norm_num⟩
       (.cons ⟨by norm_num, by norm_num⟩ .nil))) 0 1 (by decide) (by decide) (by norm_num)
 
+/-- RECOVERY (active calibration): if the peak of the detector spectrum is what the model predicts
+    for a sensor with displacement sensitivity `R₀` — thermal background plus `P_theory/(R₀²·Δf)` —
+    the reported `R_d` is `R₀`, the measured drag is `k_BT/(R₀²D)` and `κ = 2π f_c k_BT/(R₀² D)` -/
+theorem active_recovers_generating_sensitivity (m : Mdl ℝ) (dr : Drive ℝ) (g fc D sfc sD R0 : ℝ)
+    (hR : 0 < R0) (hdf : dr.df ≠ 0) (hP : 0 < m.theoreticalPower dr fc)
+    (hmax : dr.maxP = m.physicalPsd dr.freq fc D * g + m.theoreticalPower dr fc / (R0 ^ 2 * dr.df)) :
+    ∀ r, r = activeResults m dr g fc D sfc sD →
+    r.rd * 1e-6 = R0 ∧ r.measured = kT m.o.temp / (R0 ^ 2 * D) ∧
+    r.kappa * 1e-3 = 2 * Real.pi * (kT m.o.temp / (R0 ^ 2 * D)) * fc := by
+  rintro r rfl
+  obtain ⟨hp, ht, hrd, hg, hk, -⟩ := active_fields m dr g fc D sfc sD
+  have hpe : (activeResults m dr g fc D sfc sD).pExp = m.theoreticalPower dr fc / R0 ^ 2 := by
+    rw [hp, hmax]; field_simp; ring
+  have hratio : (activeResults m dr g fc D sfc sD).pTheory / (activeResults m dr g fc D sfc sD).pExp
+      = R0 ^ 2 := by
+    rw [hpe, ht]; field_simp
+  have hs : Real.sqrt ((activeResults m dr g fc D sfc sD).pTheory
+      / (activeResults m dr g fc D sfc sD).pExp) = R0 := by
+    rw [hratio, Real.sqrt_sq hR.le]
+  have h1 : (activeResults m dr g fc D sfc sD).rd * 1e-6 = R0 := by rw [hrd, hs]; ring
+  have h2 : (activeResults m dr g fc D sfc sD).measured = kT m.o.temp / (R0 ^ 2 * D) := by
+    rw [hg, hs]; ring_nf
+  refine ⟨h1, h2, ?_⟩
+  rw [hk, h2]; ring
+example : (0:ℝ) < 1 ∧ drive₀.df ≠ 0 ∧ 0 < (build oBulk).theoreticalPower drive₀ 1 := by
+  refine ⟨one_pos, by simp [drive₀], ?_⟩
+  simp [Mdl.theoreticalPower, build, oBulk, drivingPowerLorentzian, drive₀]
+  norm_num
+
 end Verif.C11
